@@ -30,6 +30,8 @@ pub enum JobKind {
     Iso { backend: Backend, entry: Entry },
     Wire { backend: Backend },
     Conc { backend: Backend, entry: Entry },
+    /// scheduled batches of two threads on SQLite, one served by another process (xproc.rs)
+    ConcXproc { entry: Entry },
     Fault { entry: Entry, layer: fault::FaultLayer },
     Crash { entry: Entry },
     Compat,
@@ -54,6 +56,7 @@ pub fn gen(kind: &JobKind, seed: u64, idx: u64, thorough: bool) -> Plan {
         JobKind::Iso { backend, entry } => Plan::Iso(twin::gen_iso(seed, *backend, *entry, thorough)),
         JobKind::Wire { backend } => Plan::Wire(wire::gen_plan(seed, *backend, thorough)),
         JobKind::Conc { backend, entry } => Plan::Conc(conc::gen_plan(seed, *backend, *entry, thorough)),
+        JobKind::ConcXproc { entry } => Plan::Conc(conc::gen_plan_xproc(seed, *entry, thorough)),
         JobKind::Fault { entry, layer } => Plan::Fault(fault::gen_plan(seed, *entry, *layer, thorough)),
         JobKind::Crash { entry } => Plan::Crash(crash::gen_plan(seed, *entry, thorough)),
         JobKind::Compat => Plan::Compat(compat::gen_plan(seed, idx)),
